@@ -249,6 +249,64 @@ def corpus():
     return out
 
 
+# bytes that have a structural meaning somewhere in the encoding: marker 00, flag 01, CompactSize prefixes fd/fe/ff
+STRUCT_BYTES = [0x00, 0x01, 0xfd, 0xfe, 0xff]
+
+
+def struct_bytes(rng, n):
+    return bytes(rng.choice(STRUCT_BYTES) for _ in range(n))
+
+
+def struct_int(rng, width):
+    return int.from_bytes(struct_bytes(rng, width), "little")
+
+
+def _with(t, version=None, locktime=None, seq=None, vout=None, value=None, txid=None):
+    ver, ins, outs, wits, lt = t
+    ins = [(txid if txid is not None else i[0], vout if vout is not None else i[1], i[2], seq if seq is not None else i[3]) for i in ins]
+    outs = [(value if value is not None else o[0], o[1]) for o in outs]
+    return (ver if version is None else version, ins, outs, wits, lt if locktime is None else locktime)
+
+
+def structural(rng, tier):
+    """FIELD VALUES whose little-endian bytes contain / look like structural bytes of the encoding: the marker-flag
+    pair 00 01 inside version, locktime, sequence, vout, value, txid, scripts, witness items (at every offset, also
+    straddling a field boundary: a version ending in 00 right before the marker), and CompactSize prefixes fd/fe/ff
+    as field bytes.  Legacy and segwit."""
+    import itertools
+    T = tier == "thorough"
+    out = []
+    pats = [bytes(p) for p in itertools.product([0, 1], repeat=4)]
+    pats += [b"\x00\x01\xfd\xff", b"\xfd\x00\x01\x00", b"\xff\xff\x00\x01", b"\xfe\x00\x00\x01", b"\x01\x00\xfd\x00",
+             b"\xfd\xfd\xfd\xfd", b"\xfe\xff\x00\x00", b"\x00\x00\x00\xff"]
+    for p in pats:
+        v = int.from_bytes(p, "little")
+        for sw in (True, False):
+            kind = "segwit" if sw else "legacy"
+            t = gen_tx(rng, n_in=rng.choice([1, 2]), n_out=rng.choice([1, 2]), segwit=sw)
+            out.append(("struct-version-%s-%s" % (p.hex(), kind), _with(t, version=v)))
+            if sw or T or p in pats[:4]:
+                t = gen_tx(rng, n_in=rng.choice([1, 2]), n_out=1, segwit=sw)
+                out.append(("struct-locktime-%s-%s" % (p.hex(), kind), _with(t, locktime=v)))
+                t = gen_tx(rng, n_in=rng.choice([1, 2]), n_out=1, segwit=sw)
+                out.append(("struct-sequence-%s-%s" % (p.hex(), kind), _with(t, seq=p)))
+        if T or p in pats[1:6]:
+            t = gen_tx(rng, n_in=1, n_out=2, segwit=True)
+            out.append(("struct-vout-%s-segwit" % p.hex(), _with(t, vout=v)))
+            t = gen_tx(rng, n_in=1, n_out=2, segwit=rng.random() < 0.7)
+            out.append(("struct-value-%s" % p.hex(), _with(t, value=int.from_bytes(p + rng.choice(pats), "little"))))
+    for _ in range(200 if T else 12):      # every field structural at once, scripts and witness items included
+        sw = rng.random() < 0.7
+        n_in = rng.choice([1, 1, 2, 3])
+        ins = [(struct_bytes(rng, 32), struct_int(rng, 4), struct_bytes(rng, rng.choice([0, 1, 2, 4, 9])), struct_bytes(rng, 4))
+               for _ in range(n_in)]
+        outs = [(struct_int(rng, 8), struct_bytes(rng, rng.choice([0, 1, 2, 5]))) for _ in range(rng.choice([0, 1, 1, 2]))]
+        wits = [[struct_bytes(rng, rng.choice([0, 1, 2, 3])) for _ in range(rng.choice([0, 1, 2]))] for _ in range(n_in)] if sw else None
+        out.append(("struct-all-fields-%s" % ("segwit" if sw else "legacy"),
+                    (struct_int(rng, 4), ins, outs, wits, struct_int(rng, 4))))
+    return out
+
+
 def grammar(rng, tier):
     """list of (class, tx tuple) covering every boundary of the model"""
     T = tier == "thorough"
@@ -297,6 +355,7 @@ def grammar(rng, tier):
         t = gen_tx(rng, n_in=1, n_out=1, segwit=False)
         t = (t[0], [((bytes([b0, 1]) + t[1][0][0])[:32],) + t[1][0][1:]], t[2], t[3], t[4])
         out.append(("first-txid-byte-%d" % b0, t))
+    out += structural(rng, tier)
     # plain random
     for _ in range(3000 if T else 150):
         sw = rng.random() < 0.5
